@@ -52,7 +52,8 @@ TNext == TReset \/ TSendReq \/ TSendOther \/ TResp \/ TInc \/ TPoll \/ TCancel \
 TSpec == TInit /\ [][TNext]_tvars
 
 \* the step properties of MCAgent, checked on the recorded run as well
-TStepProps == [][C05Step /\ NoTransmitAfterCancel /\ PollEventIffDue /\ AuthResponses /\ Validation /\ Transmissions]_tvars
+\* (a reset line starts a new agent: no step property applies to it)
+TStepProps == [][act'.name = "init" \/ (C05Step /\ NoTransmitAfterCancel /\ PollEventIffDue /\ AuthResponses /\ Validation /\ Transmissions)]_tvars
 
 Accepted ==
   IF TLCGet("stats").diameter - 1 = Len(Rec) THEN TRUE
